@@ -39,14 +39,14 @@ def c04(cx):
 @prop("C06", "LEA rules R-CHANNEL (constant channel/type sets of every emission satisfy the channel policy of the "
              "property; ExpectSymbol pairs checked at their constructors) and R-ADVANCE-EVIDENCE.")
 def c06(cx):
-    lea_glue.apply(cx, ["R-CHANNEL", "R-ADVANCE-EVIDENCE", "R-MARK-WS", "R-DELIM-SHAPE", "R-NONEMPTY"])
+    lea_glue.apply(cx, ["R-CHANNEL", "R-ADVANCE-EVIDENCE", "R-MARK-WS", "R-DELIM-SHAPE", "R-NONEMPTY", "R-SPELL"])
 
 
 @prop("C09", "LEA: R-CKPT (checkpoint typestate on every path and through every live-checkpoint region: no "
              "checkpoint() while one is live, owners always resolve it, owners are entered with one) so that no "
              "stale rollback target survives; R-SPEC-PURITY and R-ERR-PAIR are listed in the evidence when built.")
 def c09(cx):
-    lea_glue.apply(cx, ["R-CKPT", "R-ERR-PAIR", "R-SPEC-PURITY"])
+    lea_glue.apply(cx, ["R-CKPT", "R-ERR-PAIR", "R-SPEC-PURITY", "R-ERR-ORDER", "R-OFFSET-PROVENANCE"])
 
 
 @prop("C07", "LEA rule R-SECTION (the first literal section of a token is anchored at the token start or right after "
@@ -69,7 +69,7 @@ def c10(cx):
 @prop("C13", "LEA rule R-NESTING-FLUSH: every exit of a parenthesis-counting argument scanner pops the mode, stores the "
              "local count into it, or provably has count 0.")
 def c13(cx):
-    lea_glue.apply(cx, ["R-NESTING-FLUSH"])
+    lea_glue.apply(cx, ["R-NESTING-FLUSH", "R-DEPTH-GUARD"])
 
 
 @prop("C14", "LEA rule R-EXPECT-TABLE: for every keyword handled by dispatch_macro_call_or_stat the pre-loaded mode "
@@ -98,6 +98,7 @@ def c02(cx):
     rules_struct.r_eof(cx, fx)
     rules_struct.r_bom_order(cx, fx)
     rules_cfg.r_cfgdiff_macrosep(cx)
+    lea_glue.apply(cx, ["R-OFFSET-PROVENANCE", "R-EMIT-ORDER"])
 
 
 @prop("C12", "R-PAIR-COUNTERS (macro nesting level and pending-statement frames are opened only by %macro/%do and "
@@ -130,7 +131,7 @@ def c05(cx):
              "token: false after ';', true otherwise), R-DELIM-SHAPE (comments consume disjoint opener and closer), "
              "R-NONEMPTY. Decides the statement-context flag and token-shape clauses, not equivalence with a reference lexer.")
 def c11(cx):
-    lea_glue.apply(cx, ["R-PENDING", "R-DELIM-SHAPE", "R-NONEMPTY"])
+    lea_glue.apply(cx, ["R-PENDING", "R-DELIM-SHAPE", "R-NONEMPTY", "R-SPELL", "R-DATALINES-START"])
 
 
 @prop("C15", "R-STATE-INVENTORY (no state outside the lexer object), R-NO-ABSOLUTE (no control flow on history lengths), "
@@ -142,7 +143,7 @@ def c15(cx):
     rules_cfg.r_no_absolute(cx)
     rules_cfg.r_lookbehind(cx)
     rules_struct.r_pair_counters(cx, cx.facts("dev-none-stable"))
-    lea_glue.apply(cx, ["R-CKPT"])
+    lea_glue.apply(cx, ["R-CKPT", "R-DATALINES-START"])
 
 
 @prop("C18", "R-CFGDIFF-MACROSEP: structural diff of the feature-off and feature-on HIR: feature-only code may only read "
